@@ -5,3 +5,4 @@ import MiniconfVerif.Props.C01
 #print axioms MiniconfVerif.C01.read_after_write
 #print axioms MiniconfVerif.C01.chain_equivalent
 #print axioms MiniconfVerif.C01.histories
+#print axioms MiniconfVerif.C01.source_array_access_is_model
